@@ -41,6 +41,9 @@ class TProg:
         self.draws_per_shot += 1
         if echo:
             self.echoes += 1
+            if self.rng.random() < 0.5:
+                # the measurement happens inside the echo argument: it must happen whether or not echo output is shown
+                return "echo(measure %s);" % ref
             return "bit e%d = measure %s; echo(e%d);" % (self.echoes, ref, self.echoes)
         return "measure %s;" % ref
 
@@ -93,10 +96,12 @@ def gen(rng):
             # one declaration statement, several declarators: every name is tracked
             names = ["d%d%s" % (b, c) for c in "abc"[: rng.randint(2, 3)]]
             main.append("    @tracked qubit %s;" % ", ".join(names))
-            for nm in names:
-                h = p.nh; p.nh += 1
+            hs = []
+            for nm in names:          # the statement allocates every declarator before anything else runs
+                hs.append(p.nh); p.nh += 1
                 p.nq += 1
                 p.toks += ["D", "1"]
+            for nm, h in zip(names, hs):
                 if rng.random() < 0.7:
                     main.append("    " + p.gate(nm, h, 0))
                 if rng.random() < 0.8:
